@@ -7,8 +7,9 @@ import GcArena.Model.Derive
       case  <name> <ty> <val>     predict NEEDS_TRACE and the reported pointers of a value
       check <name> <ty>           predict only whether the type's derive compiles
 
-      ty      := L | G | W | OS | ON | (P i) | (C con ty*) | (A decl ty*)
-                 L pointer-free `Collect` leaf, G `Gc`, W `GcWeak`, OS / ON type without `Collect`
+      ty      := L | G | W | GS | WS | OS | ON | (P i) | (C con ty*) | (A decl ty*)
+                 L pointer-free `Collect` leaf, G `Gc`, W `GcWeak`, GS / WS `Gc<'gc, Self>` /
+                 `GcWeak<'gc, Self>` (same meaning as G / W), OS / ON type without `Collect`
                  impl that is / is not `'static`, (P i) i-th type parameter of the enclosing decl
       con     := option | box | reflock | lock | oncelock | vec | array<n> | tuple | result | map | slicehdr
       decl    := (D struct|enum (attr*) <#lifetimes> <#tparams> drop|nodrop variant*)
@@ -102,6 +103,10 @@ partial def tyOf : Sexp → Option Ty
   | .atom "L" => some .leaf
   | .atom "G" => some .gc
   | .atom "W" => some .weak
+  -- `Gc<'gc, Self>` / `GcWeak<'gc, Self>` (also `Gc<'gc, RefLock<Self>>`): a pointer leaf like any
+  -- other — `Gc::trace` reports the pointer itself and NEEDS_TRACE is `true` whatever the pointee
+  | .atom "GS" => some .gc
+  | .atom "WS" => some .weak
   | .atom "OS" => some (.opaque true)
   | .atom "ON" => some (.opaque false)
   | .list [.atom "P", i] => (natOf i).map Ty.param
